@@ -5,7 +5,7 @@ From GVL Require Import NList Wire.
 From GV_pipeline Require Import Model Proofs.
 Open Scope N_scope.
 
-Ltac prj := cbn [r_tcp r_setup r_ph r_active r_w r_queue r_ring r_rp r_wp r_wire r_con r_deliv r_hist r_lost r_rx r_resets upd_ctl upd_data upd_ring upd_rx].
+Ltac prj := cbn [r_tcp r_setup r_ph r_active r_w r_queue r_wire r_con r_deliv r_hist r_lost r_rx r_resets upd_ctl upd_data upd_rx].
 
 (* ---------- subsequences ---------- *)
 Inductive Subseq {A} : list A -> list A -> Prop :=
@@ -102,7 +102,7 @@ Theorem delivered_identical r d :
                d_pkt d = set_ssrc p0 s.
 Proof.
   intros Hr Hd. pose proof (reach_inv _ _ _ Hreach) as Hi. unfold sinv in Hi. rewrite Forall_forall in Hi.
-  destruct (Hi _ Hr) as [_ _ _ _ H4 _ _ _ _ _ _ _ _ _]. rewrite Forall_forall in H4.
+  destruct (Hi _ Hr) as [_ _ _ H4 _ _ _ _ _ _ _ _ _]. rewrite Forall_forall in H4.
   destruct (H4 _ Hd) as (p0 & fs & s & H1 & H2 & H3 & H5). exists p0, s. repeat split; auto.
   unfold ssrc_of. rewrite H2. now rewrite (find_fmt_nnth _ _ _ _ H3).
 Qed.
@@ -111,7 +111,7 @@ Qed.
 Theorem delivered_at_most_once r : In r (s_readers st) -> NoDup (didxs (r_deliv r)).
 Proof.
   intros Hr. pose proof (reach_inv _ _ _ Hreach) as Hi. unfold sinv in Hi. rewrite Forall_forall in Hi.
-  destruct (Hi _ Hr) as [_ _ _ _ _ _ _ _ _ H9 (_ & Hs) _ _ _].
+  destruct (Hi _ Hr) as [_ _ _ _ _ _ _ _ H9 (_ & Hs) _ _ _].
   apply (NoDup_count_occ N.eq_dec). intros n.
   pose proof (proj1 (NoDup_count_occ N.eq_dec _) (sinc_NoDup _ Hs) n) as Hn.
   specialize (H9 n). unfold cnt in H9. lia.
@@ -123,7 +123,7 @@ Theorem delivered_in_order_partial r m f :
   In r (s_readers st) -> sinc (didxs (filter (same_mf m f) (ordered_part r))).
 Proof.
   intros Hr. pose proof (reach_inv _ _ _ Hreach) as Hi. unfold sinv in Hi. rewrite Forall_forall in Hi.
-  destruct (Hi _ Hr) as [_ _ _ _ _ H5 _ _ _ _ _ _ _ _]. now apply inc_mf_sinc.
+  destruct (Hi _ Hr) as [_ _ _ _ H5 _ _ _ _ _ _ _ _]. now apply inc_mf_sinc.
 Qed.
 
 Lemma ordered_part_incl r d : In d (ordered_part r) -> In d (r_deliv r).
@@ -170,7 +170,7 @@ Theorem announced_ssrc r d m s :
   In r (s_readers st) -> In d (r_deliv r) -> d_m d = m -> announce c m = Some s -> p_ssrc (d_pkt d) = s.
 Proof.
   intros Hr Hd Hm Ha. pose proof (reach_inv _ _ _ Hreach) as Hi. unfold sinv in Hi. rewrite Forall_forall in Hi.
-  destruct (Hi _ Hr) as [_ _ _ _ H4 _ _ _ _ _ _ _ _ _]. rewrite Forall_forall in H4.
+  destruct (Hi _ Hr) as [_ _ _ H4 _ _ _ _ _ _ _ _ _]. rewrite Forall_forall in H4.
   destruct (H4 _ Hd) as (p0 & fs & s' & H1 & H2 & H3 & H5). subst m.
   unfold announce in Ha. rewrite H2 in Ha. destruct fs as [|[pt0 s0] [|? ?]]; try discriminate.
   inversion Ha; subst s0. unfold find_fmt in H3. cbn [find_fmt_aux] in H3.
@@ -189,18 +189,17 @@ Qed.
 Theorem conservation r :
   In r (s_readers st) ->
   Permutation (r_hist r)
-    (didxs (r_deliv r) ++ r_lost r ++ idxs (r_wire r) ++ idxs (r_queue r) ++ idxs (ritems (r_ring r))).
+    (didxs (r_deliv r) ++ r_lost r ++ idxs (r_wire r) ++ idxs (r_queue r)).
 Proof.
   intros Hr. pose proof (reach_inv _ _ _ Hreach) as Hi. unfold sinv in Hi. rewrite Forall_forall in Hi.
-  destruct (Hi _ Hr) as [_ _ _ _ _ _ _ _ _ H9 _ _ _ _].
+  destruct (Hi _ Hr) as [_ _ _ _ _ _ _ _ H9 _ _ _ _].
   apply (Permutation_count_occ N.eq_dec). intros n. specialize (H9 n). unfold cnt in H9.
   rewrite !count_occ_app. lia.
 Qed.
 
 Theorem accepted_delivered_inflight_or_discarded r idx :
   In r (s_readers st) -> In idx (r_hist r) ->
-  In idx (didxs (r_deliv r)) \/ In idx (idxs (r_wire r)) \/ In idx (idxs (r_queue r)) \/
-  In idx (idxs (ritems (r_ring r))) \/ In idx (r_lost r).
+  In idx (didxs (r_deliv r)) \/ In idx (idxs (r_wire r)) \/ In idx (idxs (r_queue r)) \/ In idx (r_lost r).
 Proof.
   intros Hr Hin. pose proof (Permutation_in _ (conservation r Hr) Hin) as H.
   rewrite !in_app_iff in H. tauto.
@@ -212,7 +211,7 @@ Theorem tcp_global_order_partial r :
   In r (s_readers st) -> r_tcp r = true -> sinc (didxs (nl_d (r_deliv r))).
 Proof.
   intros Hr Ht. pose proof (reach_inv _ _ _ Hreach) as Hi. unfold sinv in Hi. rewrite Forall_forall in Hi.
-  destruct (Hi _ Hr) as [_ _ _ _ _ _ H6 _ _ _ _ _ _ _]. specialize (H6 Ht). now apply sinc_drop_tail in H6.
+  destruct (Hi _ Hr) as [_ _ _ _ _ H6 _ _ _ _ _ _ _]. specialize (H6 Ht). now apply sinc_drop_tail in H6.
 Qed.
 
 (* once PLAY has completed (and until a stop is requested) the reader is active and has a writer *)
@@ -220,7 +219,7 @@ Theorem playing_is_active r :
   In r (s_readers st) -> r_ph r = PhPlaying -> r_active r = true /\ exists b, r_w r = WOpen b.
 Proof.
   intros Hr Hp. pose proof (reach_inv _ _ _ Hreach) as Hi. unfold sinv in Hi. rewrite Forall_forall in Hi.
-  destruct (Hi _ Hr) as [_ _ _ _ _ _ _ _ H8 _ _ _ _ _]. unfold ph_inv in H8. now rewrite Hp in H8.
+  destruct (Hi _ Hr) as [_ _ _ _ _ _ _ H8 _ _ _ _ _]. unfold ph_inv in H8. now rewrite Hp in H8.
 Qed.
 
 (* a writer that is closed but not yet dropped exists only while a stop is being processed *)
@@ -228,7 +227,7 @@ Theorem closed_writer_only_when_stopping r b :
   In r (s_readers st) -> r_w r = WClosed b -> r_ph r = PhStopReq.
 Proof.
   intros Hr Hw. pose proof (reach_inv _ _ _ Hreach) as Hi. unfold sinv in Hi. rewrite Forall_forall in Hi.
-  destruct (Hi _ Hr) as [_ _ _ _ _ _ _ _ H8 _ _ _ _ _]. unfold ph_inv in H8.
+  destruct (Hi _ Hr) as [_ _ _ _ _ _ _ H8 _ _ _ _ _]. unfold ph_inv in H8.
   destruct (r_ph r); auto; try (exfalso; now apply (H8 b)).
   destruct H8 as (_ & b' & H8). congruence.
 Qed.
@@ -300,10 +299,9 @@ Qed.
 
 Definition is_discard (kk : ctl) : Prop := kk = CCloseW \/ kk = CNilW \/ kk = CCClose.
 
-(* nothing in the transport or among the deliveries was pushed after a Close, and the closed ring is empty *)
+(* nothing in the transport or among the deliveries carries the late flag *)
 Definition clean (r : rstate) : Prop :=
-  Forall (fun x => i_late x = false) (r_wire r) /\ Forall (fun d => d_late d = false) (r_deliv r) /\
-  ritems (r_ring r) = [].
+  Forall (fun x => i_late x = false) (r_wire r) /\ Forall (fun d => d_late d = false) (r_deliv r).
 
 Lemma ctl_effect c W kk r r' :
   rinv c W r -> r_ctl c kk r = Some r' ->
@@ -313,7 +311,7 @@ Lemma ctl_effect c W kk r r' :
   (r_ph r <> PhStopReq -> clean r -> clean r').
 Proof.
   unfold is_discard, clean. intros Hi H.
-  pose proof Hi as [_ (_ & Hq) _ _ _ _ _ _ Hph _ _ _ _ _].
+  pose proof Hi as [_ (_ & Hq) _ _ _ _ _ Hph _ _ _ _ _].
   destruct kk; cbn [r_ctl] in H.
   - unfold r_playreq in H. destruct (r_ph r), (r_w r), (r_active r); try discriminate; inversion H; subst; prj;
       repeat split; auto; try discriminate; tauto.
@@ -328,9 +326,9 @@ Proof.
   - unfold r_stopreq in H. destruct (r_ph r); try discriminate; inversion H; subst; prj; repeat split; auto; tauto.
   - unfold r_drain in H. destruct (r_w r) as [|[|]|[|]] eqn:Ew; try discriminate.
     + destruct (r_queue r) as [|x q]; [discriminate|]. inversion H; subst; prj. repeat split; auto; try tauto.
-      match goal with Hc : _ /\ _ /\ _ |- _ => destruct Hc as (C1 & _) end.
+      match goal with Hc : Forall _ (r_wire r) /\ _ |- _ => destruct Hc as (C1 & _) end.
       apply Forall_app; split; auto. inversion Hq; subst. auto.
-    + destruct (nnth (r_rp r) (r_ring r)) as [[x|]|]; try discriminate. inversion H; subst; prj.
+    + destruct (r_queue r) as [|x q]; [discriminate|]. inversion H; subst; prj.
       assert (Hp : r_ph r = PhStopReq).
       { unfold ph_inv in Hph. destruct (r_ph r); auto; try (exfalso; now apply (Hph true)).
         destruct Hph as (_ & b & Hb). congruence. }
@@ -354,16 +352,12 @@ Lemma push_effect c W m f idx p r :
   r_tcp r' = r_tcp r /\ r_setup r' = r_setup r /\ r_lost r' = r_lost r /\ r_ph r' = r_ph r /\
   (r_ph r <> PhStopReq -> clean r -> clean r').
 Proof.
-  intros Hi. pose proof Hi as [_ _ _ _ _ _ _ _ Hph _ _ _ _ _]. unfold clean.
+  intros Hi. pose proof Hi as [_ _ _ _ _ _ _ Hph _ _ _ _ _]. unfold clean.
   unfold r_push. destruct (r_active r); [|cbn; tauto].
   destruct (chan_of (r_setup r) m); [|cbn; tauto].
   destruct (r_w r) as [|b|b] eqn:Ew; [cbn; tauto| |].
   - destruct (nlen (r_queue r) <? c_Q c); cbn; tauto.
-  - destruct (nnth (r_wp r) (r_ring r)) as [[y|]|]; cbn; try tauto.
-    assert (Hp : r_ph r = PhStopReq).
-    { unfold ph_inv in Hph. destruct (r_ph r); auto; try (exfalso; now apply (Hph b)).
-      destruct Hph as (_ & b' & Hb). congruence. }
-    repeat split; auto; congruence.
+  - cbn; tauto.
 Qed.
 
 Lemma arrive_effect c W i r r' d :
@@ -371,7 +365,7 @@ Lemma arrive_effect c W i r r' d :
   r_tcp r' = r_tcp r /\ r_setup r' = r_setup r /\ r_ph r' = r_ph r /\
   (r_tcp r = true -> r_lost r' = r_lost r /\ d <> None /\ (clean r -> clean r')).
 Proof.
-  intros Hi H. pose proof Hi as [H1 _ _ H3 _ _ _ _ _ _ _ _ _ _]. unfold clean.
+  intros Hi H. pose proof Hi as [H1 _ H3 _ _ _ _ _ _ _ _ _ _]. unfold clean.
   unfold r_arrive in H. destruct (r_con r); cbn [negb] in H; [|discriminate].
   destruct (r_tcp r && negb (i =? 0)); [discriminate|].
   destruct (take_nth i (r_wire r)) as [[x wi]|] eqn:Et; [|discriminate].
@@ -386,7 +380,6 @@ Proof.
   - inversion H; subst; prj. repeat split; auto; try discriminate.
     + apply Hcl; tauto.
     + apply Forall_app; split; [tauto|]. constructor; [|constructor]. cbn [d_late]. apply Hcl; tauto.
-    + tauto.
   - destruct (rx_get (r_rx r) (i_m x) (i_f x)) as [[last neg]|].
     + destruct (last <? i_idx x); [inversion H; subst; prj; repeat split; auto; discriminate|].
       destruct (c_B c <? neg + 1); inversion H; subst; prj; repeat split; auto; discriminate.
@@ -469,7 +462,6 @@ Proof.
         + destruct H3 as [Hq1|(Hq1 & _)]; [assumption|contradiction].
         + now apply H5.
         + now apply H5.
-        + now apply H5.
       - destruct (push_effect c _ m f (nlen (s_written st)) (set_ssrc p ss) r Hr) as (H1 & H2 & H3 & H4 & H5).
         repeat split; try congruence; now apply H5.
       - destruct (arrive_effect _ _ _ _ _ _ Hr Hc) as (H1 & H2 & H3 & H4). destruct (H4 Ht) as (H6 & _ & H5).
@@ -500,14 +492,13 @@ Proof.
   intros Hok Hk H HF.
   assert (Hcl0 : clean (new_reader true su)) by (repeat split; constructor).
   destruct (exec_nostop c k steps (init rs) st (new_reader true su) (init_inv c rs Hok) H Hk eq_refl) as
-    (r & Q1 & Q2 & _ & _ & Q5 & (Q6 & Q7 & Q8)); [discriminate|exact Hcl0|exact HF|].
+    (r & Q1 & Q2 & _ & _ & Q5 & (Q6 & Q7)); [discriminate|exact Hcl0|exact HF|].
   assert (Hre : reach c rs st) by (split; eauto).
   exists r. repeat split; auto.
   - pose proof (tcp_global_order_partial _ _ _ Hre r (nnth_In _ _ _ Q1) Q2) as Ho. now rewrite (nl_d_clean _ Q7) in Ho.
   - intros idx Hin.
-    destruct (accepted_delivered_inflight_or_discarded _ _ _ Hre r idx (nnth_In _ _ _ Q1) Hin) as [?|[?|[?|[Hl|Hl]]]]; auto.
-    + rewrite Q8 in Hl. cbn in Hl. contradiction.
-    + rewrite Q5 in Hl. cbn in Hl. contradiction.
+    destruct (accepted_delivered_inflight_or_discarded _ _ _ Hre r idx (nnth_In _ _ _ Q1) Hin) as [?|[?|[?|Hl]]]; auto.
+    rewrite Q5 in Hl. cbn in Hl. contradiction.
 Qed.
 
 (* ... and once its queue and transport have drained, everything accepted has been delivered *)
@@ -521,12 +512,12 @@ Proof.
   intros Hok Hk H HF.
   assert (Hcl0 : clean (new_reader true su)) by (repeat split; constructor).
   destruct (exec_nostop c k steps (init rs) st (new_reader true su) (init_inv c rs Hok) H Hk eq_refl) as
-    (r & Q1 & Q2 & _ & _ & Q5 & (Q6 & Q7 & Q8)); [discriminate|exact Hcl0|exact HF|].
+    (r & Q1 & Q2 & _ & _ & Q5 & (Q6 & Q7)); [discriminate|exact Hcl0|exact HF|].
   destruct (tcp_complete _ _ _ _ _ _ Hok Hk H HF) as (r0 & Q1' & _ & Q3 & Q4 & _).
   rewrite Q1 in Q1'. inversion Q1'; subst r0.
   exists r. split; [exact Q1|]. intros Hw Hq.
   assert (Hre : reach c rs st) by (split; eauto). split; [|exact Q4].
-  pose proof (conservation _ _ _ Hre r (nnth_In _ _ _ Q1)) as HP. rewrite Q3, Hw, Hq, Q8 in HP.
+  pose proof (conservation _ _ _ Hre r (nnth_In _ _ _ Q1)) as HP. rewrite Q3, Hw, Hq in HP.
   cbn [idxs map app] in HP. now rewrite app_nil_r in HP.
 Qed.
 
@@ -538,7 +529,7 @@ Theorem udp_in_order_until_reset c rs st r m f :
 Proof.
   intros Hre Hr Ht Hz. pose proof (delivered_in_order_partial _ _ _ Hre r m f Hr) as H.
   pose proof (reach_inv _ _ _ Hre) as Hi. unfold sinv in Hi. rewrite Forall_forall in Hi.
-  destruct (Hi _ Hr) as [_ _ _ _ _ _ _ _ _ _ _ _ H12 _].
+  destruct (Hi _ Hr) as [_ _ _ _ _ _ _ _ _ _ _ H12 _].
   unfold ordered_part in H. now rewrite (nl_d_clean _ (H12 Ht Hz)) in H.
 Qed.
 
@@ -565,7 +556,7 @@ Proof.
     + unfold r_stopreq in Hc. destruct (r_ph r); try discriminate; now inversion Hc.
     + unfold r_drain in Hc. destruct (r_w r) as [|[|]|[|]]; try discriminate.
       * destruct (r_queue r); [discriminate|]. now inversion Hc.
-      * destruct (nnth (r_rp r) (r_ring r)) as [[x|]|]; try discriminate. now inversion Hc.
+      * destruct (r_queue r); [discriminate|]. now inversion Hc.
     + unfold r_closew in Hc. destruct (r_ph r), (r_w r); try discriminate; now inversion Hc.
     + unfold r_nilw in Hc. destruct (r_ph r), (r_w r); try discriminate; now inversion Hc.
     + unfold r_deact in Hc. destruct (r_ph r); try discriminate; now inversion Hc.
@@ -575,9 +566,8 @@ Proof.
     + unfold r_cclose in Hc. destruct (r_ph r); try discriminate; now inversion Hc.
   - exfalso. apply Hne. unfold r_push. destruct (r_active r); [|reflexivity].
     destruct (chan_of (r_setup r) m); [|reflexivity].
-    destruct (r_w r); [reflexivity| |].
-    + destruct (nlen (r_queue r) <? c_Q c); reflexivity.
-    + destruct (nnth (r_wp r) (r_ring r)) as [[y|]|]; reflexivity.
+    destruct (r_w r); [reflexivity| |reflexivity].
+    destruct (nlen (r_queue r) <? c_Q c); reflexivity.
   - unfold r_arrive in Hc. destruct (r_con r); cbn [negb] in Hc; [|discriminate].
     destruct (r_tcp r && negb (i =? 0)); [discriminate|].
     destruct (take_nth i (r_wire r)) as [[x wi]|]; [|discriminate].
@@ -593,55 +583,38 @@ Proof.
     destruct (take_nth i (r_wire r)) as [[x wi]|]; [|discriminate]. now inversion Hc.
 Qed.
 
-(* ---------- the order property is FALSE of the faithful model ---------- *)
-(* capacity 4, one media with one format, one TCP reader.  Two packets are queued (the consumer has not
-   run yet) when PAUSE arrives; Close() clears the slots but keeps the indices two apart; four more
-   packets are pushed before writer = nil; the still-running consumer executes them starting at the stale
-   read index: 4, 5, 2, 3. *)
-Definition rf_cfg := mkCfg 4 64 [[(96, 7)]].
-Definition rf_rs := [new_reader true [(0, 0)]].
-Definition rf_p (seq : N) := mkP seq 0 false 96 0 [seq].
-Definition rf_steps :=
-  [ SCtl CPlayReq 0; SCtl CCreate 0; SCtl CActivate 0; SCtl CStart 0; SCtl CPlayDone 0;
-    SWrite 0 (rf_p 100) []; SWrite 0 (rf_p 101) [];
-    SCtl CStopReq 0; SCtl CCloseW 0;
-    SWrite 0 (rf_p 102) []; SWrite 0 (rf_p 103) []; SWrite 0 (rf_p 104) []; SWrite 0 (rf_p 105) [];
-    SWrite 0 (rf_p 106) [0];
-    SCtl CDrain 0; SCtl CDrain 0; SCtl CDrain 0; SCtl CDrain 0;
-    SArrive 0 0 (Some (mkObs 0 0 4 (set_ssrc (rf_p 104) 7)));
-    SArrive 0 0 (Some (mkObs 0 0 5 (set_ssrc (rf_p 105) 7)));
-    SArrive 0 0 (Some (mkObs 0 0 2 (set_ssrc (rf_p 102) 7)));
-    SArrive 0 0 (Some (mkObs 0 0 3 (set_ssrc (rf_p 103) 7)));
-    SCtl CNilW 0; SCtl CDeact 0; SCtl CStopDone 0 ].
 
-Theorem delivered_in_order_refuted :
-  exists c rs steps st r m f,
-    readers_ok rs /\ exec c (init rs) steps = Some st /\ In r (s_readers st) /\ r_tcp r = true /\
-    didxs (filter (same_mf m f) (r_deliv r)) = [4; 5; 2; 3] /\
-    ~ sinc (didxs (filter (same_mf m f) (r_deliv r))).
+(* ---------- with the repair: TCP readers receive everything in the order written, unconditionally ---------- *)
+Lemma nl_d_all dl : Forall (fun d => d_late d = false) dl -> nl_d dl = dl.
 Proof.
-  exists rf_cfg, rf_rs, rf_steps.
-  destruct (exec rf_cfg (init rf_rs) rf_steps) as [st|] eqn:E; [|vm_compute in E; discriminate].
-  exists st. vm_compute in E. inversion E; subst st. clear E.
-  eexists. exists 0, 0. split.
-  - repeat constructor. eexists; eexists. split; [reflexivity|]. cbn. repeat constructor. intros [].
-  - split; [reflexivity|]. split; [left; reflexivity|]. split; [reflexivity|]. split; [reflexivity|].
-    cbn. intros (H & _). inversion H as [|? ? _ H']. inversion H' as [|? ? H'' _]. lia.
+  unfold nl_d. induction 1 as [|d t Hd _ IH]; cbn [filter]; [reflexivity|]. rewrite Hd. cbn. now rewrite IH.
 Qed.
 
-Theorem delivered_is_subsequence_refuted :
-  exists c rs steps st r m f s,
-    readers_ok rs /\ exec c (init rs) steps = Some st /\ In r (s_readers st) /\ ssrc_of c m f = Some s /\
-    ~ Subseq (deliv_mf r m f) (map (fun p => set_ssrc p s) (written_mf (s_written st) m f)).
+Theorem tcp_delivered_in_order c rs st r m f :
+  reach c rs st -> In r (s_readers st) -> r_tcp r = true ->
+  sinc (didxs (filter (same_mf m f) (r_deliv r))).
 Proof.
-  exists rf_cfg, rf_rs, rf_steps.
-  destruct (exec rf_cfg (init rf_rs) rf_steps) as [st|] eqn:E; [|vm_compute in E; discriminate].
-  exists st. vm_compute in E. inversion E; subst st. clear E.
-  eexists. exists 0, 0, 7. split.
-  - repeat constructor. eexists; eexists. split; [reflexivity|]. cbn. repeat constructor. intros [].
-  - split; [reflexivity|]. split; [left; reflexivity|]. split; [reflexivity|].
-    vm_compute. intros H.
-    repeat match goal with
-    | H : Subseq _ _ |- _ => inversion H; clear H; subst
-    end.
+  intros Hre Hr Ht. pose proof (delivered_in_order_partial _ _ _ Hre r m f Hr) as H.
+  pose proof (reach_inv _ _ _ Hre) as Hi. unfold sinv in Hi. rewrite Forall_forall in Hi.
+  destruct (Hi _ Hr) as [_ _ _ _ _ _ _ _ _ _ (_ & Hnl) _ _].
+  unfold ordered_part in H. now rewrite (nl_d_all _ (Hnl Ht)) in H.
+Qed.
+
+Theorem tcp_delivered_is_subsequence c rs st r m f s :
+  reach c rs st -> In r (s_readers st) -> r_tcp r = true -> ssrc_of c m f = Some s ->
+  Subseq (deliv_mf r m f) (map (fun p => set_ssrc p s) (written_mf (s_written st) m f)).
+Proof.
+  intros Hre Hr Ht Hs. pose proof (delivered_is_subsequence_partial _ _ _ Hre r m f s Hr Hs) as H.
+  pose proof (reach_inv _ _ _ Hre) as Hi. unfold sinv in Hi. rewrite Forall_forall in Hi.
+  destruct (Hi _ Hr) as [_ _ _ _ _ _ _ _ _ _ (_ & Hnl) _ _].
+  unfold deliv_mf_ord, ordered_part in H. rewrite (nl_d_all _ (Hnl Ht)) in H. exact H.
+Qed.
+
+Theorem tcp_global_order c rs st r :
+  reach c rs st -> In r (s_readers st) -> r_tcp r = true -> sinc (didxs (r_deliv r)).
+Proof.
+  intros Hre Hr Ht. pose proof (tcp_global_order_partial _ _ _ Hre r Hr Ht) as H.
+  pose proof (reach_inv _ _ _ Hre) as Hi. unfold sinv in Hi. rewrite Forall_forall in Hi.
+  destruct (Hi _ Hr) as [_ _ _ _ _ _ _ _ _ _ (_ & Hnl) _ _].
+  now rewrite (nl_d_all _ (Hnl Ht)) in H.
 Qed.
